@@ -14,6 +14,9 @@ fn main() {
     if args.get(1).map(|s| s.as_str()) == Some("--version") {
         return; // build probe
     }
+    if args.get(1).map(|s| s.as_str()) == Some("deser") {
+        return deser_main(&args[2..]);
+    }
     let cases: Vec<(String, Vec<Op>)> = serde_json::from_str(&std::fs::read_to_string(&args[1]).expect("cases")).expect("cases json");
     let shard: usize = args[2].parse().unwrap();
     let nshards: usize = args[3].parse().unwrap();
@@ -39,6 +42,42 @@ fn main() {
             Err(msg) => {
                 std::fs::write(progress, format!("{{\"failed\": {i}, \"done\": {done}, \"ops\": {ops_run}, \"message\": {}}}", serde_json::to_string(&msg).unwrap())).ok();
                 std::process::exit(1);
+            }
+        }
+    }
+    std::fs::write(progress, format!("{{\"finished\": true, \"done\": {done}, \"ops\": {ops_run}}}")).ok();
+}
+
+/// `vmiri deser <cases.json> <shard> <nshards> <progress-file>`: edited serializations (C11). The
+/// case runner's own oracles stay on (outcome Err or a world that passes the audit); the follow-up
+/// history runs with the per-step oracles off.
+fn deser_main(args: &[String]) {
+    let cases: Vec<(String, vcore::deser::DeserCase)> = serde_json::from_str(&std::fs::read_to_string(&args[0]).expect("cases")).expect("cases json");
+    let shard: usize = args[1].parse().unwrap();
+    let nshards: usize = args[2].parse().unwrap();
+    let progress = &args[3];
+    vcore::runner::install_quiet_panic_hook();
+    vcore::interp::LIGHT.store(true, std::sync::atomic::Ordering::Relaxed);
+    let mut done = 0usize;
+    let mut ops_run = 0usize;
+    for (i, (reg, case)) in cases.iter().enumerate() {
+        if i % nshards != shard {
+            continue;
+        }
+        std::fs::write(progress, format!("{{\"running\": {i}, \"done\": {done}, \"ops\": {ops_run}}}")).ok();
+        let out = match reg.as_str() {
+            "r6" => vcore::deser::run_deser_case::<reg_r6::gen::Rg>(case, "C11", 0),
+            other => panic!("registry {other} is not linked into vmiri"),
+        };
+        match out.fail {
+            Some(f) if f.props.contains(&"C11") => {
+                let msg = format!("[{}] {}", f.oracle, f.msg);
+                std::fs::write(progress, format!("{{\"failed\": {i}, \"done\": {done}, \"ops\": {ops_run}, \"message\": {}}}", serde_json::to_string(&msg).unwrap())).ok();
+                std::process::exit(1);
+            }
+            _ => {
+                done += 1;
+                ops_run += case.base.len() + out.stats.follow_ops;
             }
         }
     }
